@@ -217,6 +217,12 @@ where
                 IterationResult::from_condition(result.is_none()),
                 self.state.clone().unwrap(),
             );
+            #[cfg(feature = "verif")]
+            crate::verif::emit(|| {
+                serde_json::json!({"ev": "leader", "at": crate::verif::coord_str(self.coord),
+                    "round": self.iteration_index, "cont": result.is_none(),
+                    "state": serde_json::to_value(&state_feedback.1).unwrap_or_default()})
+            });
             for sender in &self.feedback_senders {
                 let message = NetworkMessage::new_single(
                     StreamElement::Item(state_feedback.clone()),
